@@ -27,7 +27,8 @@ from mc.engine import Suite, Out
 
 PROPERTY = 'C13'
 ASSUMPTIONS = [
-    'indices are sorted and duplicate free (any gaps, empty = pd.DatetimeIndex([])); values are floats (and one int column in the frame) without NaN',
+    'indices are sorted (any gaps, empty = pd.DatetimeIndex([])) and duplicate free, except in the slice suite\'s cases with ONE timestamp occurring twice '
+    '(single slices of a Series only); values are floats (and one int column in the frame) without NaN',
     'bounds are datetime.datetime objects (slice, stitch), datetime.time objects (time_of_day), or (suite spellings) the other ways pyg_base.dt reads a date: '
     'ISO / yyyymmdd strings, datetime.date, np.datetime64, pd.Timestamp, yyyymmdd ints - a day written without a time is midnight of that day; '
     'date and time-of-day bounds are not mixed in one call',
@@ -183,6 +184,10 @@ def gen_slice(N):
         for pts in itertools.combinations(range(N), r):
             for kind in ('series', 'frame'):
                 yield {'N': N, 'pts': list(pts), 'kind': kind}
+            if pts and max(pts) < 4:
+                for j in range(len(pts)):
+                    # a sorted index in which ONE timestamp occurs twice (two observations of one instant): both rows are in or both are out
+                    yield {'N': N, 'pts': list(pts[:j + 1]) + list(pts[j:]), 'kind': 'series', 'dup': True}
 
 
 def check_slice(case):
@@ -191,7 +196,7 @@ def check_slice(case):
     N, pts, kind = case['N'], case['pts'], case['kind']
     stamps = [BASE + i * DAY for i in pts]
     present = set(2 * i + 1 for i in pts)
-    subj = _Subject(kind, stamps, pts)
+    subj = _Subject(kind, stamps, list(range(len(pts))) if case.get('dup') else pts)
     default = _default_brackets()
     spellings = [(oc, oc) for oc in BRACKETS]
     if default in BRACKETS:
@@ -210,7 +215,7 @@ def check_slice(case):
                 label = 'df_slice(%s %s, %s)' % (kind, [str(t)[:10] for t in stamps],
                                                    ('(%s, %s)' % (lb, ub)) if spell == 'tuple' else '%s, %s, %r' % (lb, ub, oc))
                 sig = dict(spell='tuple' if spell == 'tuple' else 'args', oc=oc, kind=kind, lb=_where(lp, present), ub=_where(up, present),
-                           inverted=lp is not None and up is not None and lp > up, empty_index=not pts)
+                           inverted=lp is not None and up is not None and lp > up, empty_index=not pts, dup=bool(case.get('dup')))
                 try:
                     res = df_slice(subj.obj, (lb, ub)) if spell == 'tuple' else df_slice(subj.obj, lb, ub, oc)
                     out.call()
